@@ -38,8 +38,11 @@ class _Run:
             return local
 
         def glob(frame, event, arg):
-            if event == "call" and frame.f_code.co_filename.endswith(tracked):
-                return local
+            if event == "call":
+                fn_ = frame.f_code.co_filename
+                for t_ in tracked:
+                    if t_ in fn_:
+                        return local
             return None
         return glob
 
